@@ -31,6 +31,10 @@ def layout():
         "kdir/kfile.cmake": K_TEXT, "tfile.cmake": T_TEXT, "empty.cmake": "",
         "dtree/a.cmake": A_TEXT, "dtree/zz.cmake": fsbox.cmake_content("zz"), "dtree/Zz.cmake": fsbox.cmake_content("Zz-upper"), "dtree/sub/b.cmake": fsbox.cmake_content("b"),
         "dtree/sub/deep/c.cmake": fsbox.cmake_content("c"), "dtree/sub/deep/k2.cmake": K_TEXT,
+        # two files in different sub-directories that declare the same module name
+        "dtree/sub/compat.cmake": "#[[[ @module shared.name\n# first\n#]]\nset(A 1)\n",
+        "dtree/sub2/compat.cmake": "#[[[ @module shared.name\n# second\n#]]\nset(B 2)\n",
+        "follow.yaml": "input:\n  follow_symlinks: true\n",
         # plain_fn has the same declared parameter names as K's kfun but no keyword arguments
         "other/o1.cmake": fsbox.cmake_content("o1") + "\nfunction(plain_fn a)\nendfunction()\nmacro(plain_mac)\nendmacro()\n",
         "other/in/o2.cmake": T_TEXT,
@@ -47,7 +51,9 @@ CLI = ("import sys; sys.path.insert(0, %r); import warnings; warnings.filterwarn
 
 def cfg_args(cfg, base):
     if cfg == "excl":       # exclusion patterns that match something in several inputs
-        return ["-e", "zz.cmake", "-e", "o1.cmake", "-e", "deep/", "-e", ""]
+        return ["-e", "zz.cmake", "-e", "o1.cmake", "-e", "deep/", "-e", "", "-e", "sub/b.cmake", "-e", "dtree/sub2/compat.cmake"]
+    if cfg == "follow":
+        return ["-s", os.path.join(base, "follow.yaml")]
     return ["-s", os.path.join(base, "strip.yaml")] if cfg == "strip" else []
 
 
@@ -137,7 +143,8 @@ def _run_history(job, RR):
 def _run_env(job, RR):
     """one input under one or two environment deviations"""
     x, devs = job
-    R = RR["default"]
+    cfgname = dict(devs).get("settings", "default")
+    R = RR[cfgname]
     devs = dict(devs)
     box = fsbox.Box("c17e")
     msgs = []
@@ -169,7 +176,7 @@ def _run_env(job, RR):
             sched = fsbox.Schedule(mode="reversed", root=root) if l == "reversed" else \
                 fsbox.Schedule(table={".": list(l)}, root=root)
         out = os.path.join(base, "out")
-        r = box.run(["-r", "-o", out, arg], cwd=cwd, schedule=sched)
+        r = box.run(cfg_args(cfgname, base) + ["-r", "-o", out, arg], cwd=cwd, schedule=sched)
         if r["status"] != 0:
             msgs.append(f"error: run failed: {r['exc'] or r['stdout'][-200:]}")
         else:
@@ -212,12 +219,49 @@ def run_env(job, RR):
     return common.in_fork(_run_env, job, RR)
 
 
+def run_rewrite(job, RR):
+    return common.in_fork(_run_rewrite, job, RR)
+
+
+def _run_rewrite(job, RR):
+    """document, replace the file's content WITHOUT making it newer than the generated page, document again into the
+    same output directory: the page must be the page of the new content"""
+    which = job
+    box = fsbox.Box("c17w")
+    msgs = []
+    try:
+        lay = layout()
+        box.build(lay)
+        rel = {"K": "kdir/kfile.cmake", "T": "tfile.cmake"}[which]
+        other = {"K": T_TEXT, "T": K_TEXT}[which]
+        src = box.path("work", rel)
+        out = box.path("work", "out")
+        r1 = box.run(["-o", out, rel])
+        st = os.stat(src)
+        with open(src, "w") as f:
+            f.write(other)
+        os.utime(src, ns=(st.st_atime_ns, st.st_mtime_ns))      # same timestamps as the first revision
+        r2 = box.run(["-o", out, rel])
+        if r1["status"] or r2["status"]:
+            msgs.append(f"error: run failed: {r1['exc'] or r2['exc']}")
+        else:
+            got = box.files("work/out")
+            # reference: the new content documented in a fresh output directory
+            r3 = box.run(["-o", box.path("work", "out-fresh"), rel])
+            msgs += compare(got, box.files("work/out-fresh"), f"second run after rewriting {rel} with an unchanged mtime")
+    finally:
+        box.cleanup()
+    msgs = [m.replace(box.root, "<box>") for m in msgs]
+    return {"viol": msgs[:4], "obs": common.digest([which, not msgs]), "n": 3, "nt": "rewrite-" + which,
+            "cls": msgs[0].split(":")[0] if msgs else None, "case": {"rewrite": which}}
+
+
 def deviations(x):
     devs = [("cwd", "inside"), ("cwd", "root"), ("location", "moved/else where/deeper/work"),
             ("spelling", "abs"), ("spelling", "dotslash"), ("spelling", "updown"), ("listing", "reversed")]
     if x in ("D", "D2"):
         devs += [("spelling", "slash"), ("spelling", "dot")]
-        top = ["Zz.cmake", "a.cmake", "sub", "zz.cmake"] if x == "D" else ["in", "o1.cmake"]
+        top = ["Zz.cmake", "a.cmake", "sub", "sub2", "zz.cmake"] if x == "D" else ["in", "o1.cmake"]
         devs += [("listing", tuple(p)) for p in itertools.permutations(top)]
     return devs
 
@@ -228,7 +272,7 @@ def run(ctx):
     R2 = reference("4242")
     if R != R2:
         ctx.violation({"kind": "reference"}, compare(R2, R, "reference under hash seed 4242"), cls="bytes hash-seed")
-    R = {"default": R, "strip": reference("0", "strip"), "excl": reference("0", "excl")}
+    R = {"default": R, "strip": reference("0", "strip"), "excl": reference("0", "excl"), "follow": reference("0", "follow")}
     names = list(INPUTS)
     n = 3 if quick else 4
     hjobs = []
@@ -243,16 +287,21 @@ def run(ctx):
                     hjobs.append((list(h), mode, "work", "strip"))
                 if 2 <= k <= 3 and mode == "one-call":
                     hjobs.append((list(h), mode, "work", "excl"))
+                if k == 2:
+                    hjobs.append((list(h), mode, "work", "follow"))
     ctx.sweep(functools.partial(run_history, RR=R), hjobs, space="run histories within one process", selftest=3, isolate=False)
     ejobs = []
     for x in names:
         ds = deviations(x)
         ejobs += [(x, (d,)) for d in ds]
+        ejobs += [(x, (d, ("settings", "excl"))) for d in ds if d[0] in ("cwd", "location")]
         if not quick:
             for d1, d2 in itertools.combinations(ds, 2):
                 if d1[0] != d2[0]:
                     ejobs.append((x, (d1, d2)))
     ctx.sweep(functools.partial(run_env, RR=R), ejobs, space="environment deviations", selftest=3, isolate=False)
+    ctx.sweep(functools.partial(run_rewrite, RR=R), ["K", "T"], space="rewrite with an unchanged modification time",
+              selftest=0, chunk=1, isolate=False)
     seeds = [0, 1, 4242, ctx.seed % (2 ** 32)]
     ctx.sweep(functools.partial(run_seed, RR=R), seeds, space="hash seeds (subprocess)", selftest=0, chunk=1, isolate=False)
     ctx.cov["states"] = len({tuple(sorted(j[0])) for j in hjobs})     # multisets of inputs already documented
@@ -265,7 +314,10 @@ def run(ctx):
 
 
 def replay(case):
-    R = {"default": reference(), "strip": reference("0", "strip"), "excl": reference("0", "excl")}
+    R = {"default": reference(), "strip": reference("0", "strip"), "excl": reference("0", "excl"),
+         "follow": reference("0", "follow")}
+    if isinstance(case, dict) and "rewrite" in case:
+        return run_rewrite(case["rewrite"], R)["viol"]
     if isinstance(case, dict):
         return compare(reference("4242"), R["default"], "reference under hash seed 4242") if case.get("kind") == "reference" else []
     if isinstance(case, int):
